@@ -254,6 +254,21 @@ def run(ctx):
         mtxt = "-" if missing is None else common.enc_rat(Fraction(missing))
         lines.append("ncread %s %s %s" % (enc, (tname or "Float").replace(" ", ""), mtxt))
         metas.append((out, desc))
+    # integer variables of every width holding the smallest value of their type (where |x| wraps around): far outside the fuzzy range, negative
+    for vt, lo in (("i1", -128), ("i2", -32768), ("i4", -2147483648), ("i8", -9223372036854775808)):
+        for tname, want in (("Fuzzy", "InvalidFuzzyData"), ("Positive Integer", "InvalidPositiveData"), ("Positive Float", "InvalidPositiveData"), ("Integer", None)):
+            arr = numpy.ma.array(numpy.array([0, lo, 1, -1], dtype=vt), mask=[False, False, False, True])
+            path = os.path.join(tmp, "lo.nc")
+            make_var_file(path, (4,), arr, vtype=vt)
+            out = read_impl(path, "v", tname, None)
+            desc = {"variable": {"values": arr.tolist(), "dtype": vt}, "DataType": tname}
+            ctx.case("read-typemin %s %s" % (vt, tname), sample=None)
+            ctx.count("read_type_minimum_cases")
+            if want is None:
+                if out[0] != "ok" or numpy.ma.getdata(out[1]).tolist()[:3] != [0, lo, 1]:
+                    ctx.fail("an %s variable holding %d read as Integer: %s" % (vt, lo, out[1].tolist() if out[0] == "ok" else out[1]), desc)
+            elif not (out[0] == "mp" and out[1] == want):
+                ctx.fail("an %s variable holding %d read as %s is not rejected with %s: %s" % (vt, lo, tname, want, out[1].tolist() if out[0] == "ok" else out[:2]), desc)
     for (out, desc), ans in zip(metas, model.ask(lines)):
         if ans.startswith("ok "):
             if out[0] != "ok":
@@ -289,6 +304,7 @@ def run(ctx):
         if os.path.exists(outp):
             os.remove(outp)
         desc = {"shape": shape, "results": [{"values": a.tolist(), "dtype": str(a.dtype)} for a in results], "packed_coordinate": packed}
+        snaps = [(numpy.ma.getmaskarray(a).copy(), numpy.ma.getdata(a).copy()) for a in results]
         try:
             EEMSWrite("W", []).execute(OutFileName=outp, OutFieldNames=[eems.Producer(a, nm, False) for a, nm in zip(results, names)],
                                        DimensionFileName=tpl, DimensionFieldName="elev")
@@ -296,6 +312,11 @@ def run(ctx):
             ctx.fail("EEMSWrite failed: %s %s" % (type(e).__name__, str(e)[:100]), desc)
             continue
         ctx.case("write %r" % (desc,), sample={"shape": shape, "n_results": k})
+        for j, (a, (m0, d0)) in enumerate(zip(results, snaps)):
+            if not numpy.array_equal(numpy.ma.getmaskarray(a), m0) or not numpy.array_equal(numpy.ma.getdata(a)[~m0], d0[~m0]):
+                ctx.fail("writing %d results together changed result no. %d itself (missing cells %r -> %r): written again, alone or with others, it is no longer what was computed" % (
+                    k, j, m0.astype(int).ravel().tolist(), numpy.ma.getmaskarray(a).astype(int).ravel().tolist()), desc)
+                break
         ctx.count("write_results:%d" % k)
         union = numpy.zeros(shape, dtype=bool)
         for a in results:
